@@ -509,7 +509,7 @@ impl C11 {
                         errs.push(format!("budget {} -> {} with {attached} attached", old.farm_asset.amount, new.farm_asset.amount));
                     }
                     let rate = old.emission_rate.u128().max(1);
-                    if new.preliminary_end_epoch != old.preliminary_end_epoch + (attached / rate) as u64 || attached % rate != 0 {
+                    if new.preliminary_end_epoch as u128 != old.preliminary_end_epoch as u128 + attached / rate || attached % rate != 0 {
                         errs.push(format!("end {} -> {} for {attached} at rate {rate}", old.preliminary_end_epoch, new.preliminary_end_epoch));
                     }
                     if new.claimed_amount != old.claimed_amount || new.emission_rate != old.emission_rate || new.owner != old.owner || new.start_epoch != old.start_epoch {
